@@ -390,6 +390,8 @@ def run(ctx, prop):
         hist.append(('defer', mc.gen_defer(scn, rng)))
     for _ in range(80 if ctx.quick else 1000):
         hist.append(('topology', mc.gen_topology(scn, rng)))
+    for _ in range(60 if ctx.quick else 800):
+        hist.append(('resize-down', mc.gen_resize_down(scn, rng)))
     if prop in ('C11', 'C09'):
         for _ in range(40 if ctx.quick else 600):
             hist.append(('lease-failover', gen_lease_failover(scn, rng)))
